@@ -30,6 +30,8 @@ func init() {
 	reg("mut/msgpack-value", ruleMut, 20000, 40000, 4, facet.F[Input]{Gen: genMutValue("msgpack", DMsgpackValue)}, true)
 	reg("mut/msgpack-implied", ruleMut, 20000, 40000, 4, facet.F[Input]{Gen: genMutImplied("msgpack", DMsgpackImplied)}, true)
 
+	reg("refine/msgpack-value", ruleRefine, 20000, 40000, 4, facet.F[Input]{Gen: genRefine}, false)
+
 	reg("raw/json-value", ruleRaw, 10000, 30000, 2, facet.F[Input]{Gen: genRaw("json", []string{DJSONValue})}, false)
 	reg("raw/json-type", ruleRaw, 10000, 30000, 2, facet.F[Input]{Gen: genRaw("json", []string{DJSONType, DJSONTypeDirect})}, false)
 	reg("raw/json-implied", ruleRaw, 10000, 30000, 2, facet.F[Input]{Gen: genRaw("json", []string{DJSONImplied})}, false)
